@@ -15,6 +15,11 @@ func (k msgServer) StoreSignature(goCtx context.Context, msg *types.MsgStoreSign
 	defer telemetry.IncrCounter(1, types.ModuleName, "store signature message")
 	ctx := sdk.UnwrapSDKContext(goCtx)
 
+	if len(msg.StorageKey) == 0 {
+		// an empty key cannot be written to the KV store
+		return nil, sdkerrors.Wrap(sdkerrors.ErrInvalidRequest, "storage key cannot be empty")
+	}
+
 	var signatureObject types.Signature
 	var signatureJSON = msg.SignatureJSON
 	var err error
